@@ -1,59 +1,128 @@
-"""C15 - inference is invariant under likelihood-preserving rewrites and configurations."""
+"""C15 - inference is invariant under likelihood-preserving rewrites and configurations.
+
+Metamorphic check.  A generated, sensitive workspace is rewritten by every member of a catalogue of likelihood-preserving
+rewrites (general forms: samples merged/split with DIFFERENT yields and uncertainties, channels cut at any set of bin positions,
+renamings that change the sorted order, null systematics of each type, signal rescaling, fit configuration moved from the
+measurement to caller arguments, and compositions); full inference is run on both and the API-level observables are compared
+with the relation the property states (equal / covariant / shifted by the constant of added constraint terms)."""
 import copy
 import json
 import logging
 import math
+import os
 
 from harness import core, engine
 
 MS = {'normsys': {'interpcode': 'code4'}, 'histosys': {'interpcode': 'code4p'}}
+LOG2PI = math.log(2 * math.pi)
+NORMFACTOR_DEFAULT = dict(bounds=[0.0, 10.0], init=1.0)          # pyhf's documented defaults of an unconfigured normfactor
+PER_BIN = ('staterror', 'shapesys', 'shapefactor')
+MERGEABLE = ('normfactor', 'normsys', 'lumi', 'histosys', 'staterror', 'shapefactor')     # shapesys is per sample by definition
 
 
 # ------------------------------------------------------------------------------------------------
-def gen_model(rng):
-    """a small sensitive workspace: signal with POI mu, 1-2 backgrounds, every modifier type somewhere"""
+def gen_model(rng, info=None):
+    """a small sensitive workspace: signal with POI mu, 1-3 backgrounds, every modifier type somewhere; backgrounds may carry
+    identical modifier lists (mergeable), all-zero MC-stat uncertainties, empty bins that keep an uncertainty; parameters may be
+    fixed in the measurement; the observation may show a deficit, no signal, or an excess"""
     nch = rng.choice([1, 1, 2])
     chans = []
     obs = []
     extra_types = rng.sample(['normsys', 'histosys', 'staterror', 'shapesys', 'lumi', 'normfactor', 'shapefactor'], rng.choice([2, 3, 4]))
+    if 'staterror' not in extra_types and rng.random() < 0.5:
+        extra_types.append('staterror')
+    inject = rng.choice([0.0, 0.4, 0.4, 1.0, 2.5])
+    twin = rng.random() < 0.5            # backgrounds of a channel carry identical modifier lists
+    zero_unc = rng.random() < 0.3        # the last background's MC-stat uncertainties are all zero
+    empty_bin = rng.random() < 0.3       # the last background has an empty bin (its uncertainty there stays)
     has_lumi = False
     for ci in range(nch):
-        nb = rng.choice([1, 2, 3])
+        nb = rng.choice([1, 2, 3, 4])
         sig = [engine.dy(rng, 3, 12, 0.5) for _ in range(nb)]
+        if nb >= 2 and rng.random() < 0.15:
+            sig[rng.randrange(nb)] = 0.0
         samples = [{'name': 'signal', 'data': sig, 'modifiers': [{'name': 'mu', 'type': 'normfactor', 'data': None}]}]
         if 'normsys' in extra_types and rng.random() < 0.5:
             samples[0]['modifiers'].append({'name': 'sig_theory', 'type': 'normsys', 'data': {'lo': 0.9, 'hi': 1.1}})
-        for bi in range(rng.choice([1, 2])):
+        nbkg = rng.choice([2, 2, 3]) if twin else rng.choice([1, 2])
+        with_histo = rng.random() < 0.7
+        first_norm = None
+        for bi in range(nbkg):
+            tag = 0 if twin else bi
+            last = nbkg >= 2 and bi == nbkg - 1
             bdata = [engine.dy(rng, 30, 90, 1.0) for _ in range(nb)]
+            if empty_bin and last:
+                bdata[rng.randrange(nb)] = 0.0
             mods = []
             if 'normsys' in extra_types:
-                mods.append({'name': 'bkg_norm%d' % bi, 'type': 'normsys', 'data': {'lo': engine.dy(rng, 0.8, 0.95, 0.05), 'hi': engine.dy(rng, 1.05, 1.2, 0.05)}})
-            if 'histosys' in extra_types and rng.random() < 0.7:
-                mods.append({'name': 'shape%d' % bi, 'type': 'histosys', 'data': {'lo_data': [d - engine.dy(rng, 1, 4, 0.5) for d in bdata], 'hi_data': [d + engine.dy(rng, 1, 4, 0.5) for d in bdata]}})
+                d = {'lo': engine.dy(rng, 0.8, 0.95, 0.05), 'hi': engine.dy(rng, 1.05, 1.2, 0.05)}
+                if twin:
+                    first_norm = first_norm or d
+                    d = dict(first_norm)
+                mods.append({'name': 'bkg_norm%d' % tag, 'type': 'normsys', 'data': d})
+            if 'histosys' in extra_types and (with_histo if twin else rng.random() < 0.7):
+                mods.append({'name': 'shape%d' % tag, 'type': 'histosys', 'data': {'lo_data': [max(0.0, d - engine.dy(rng, 1, 4, 0.5)) for d in bdata],
+                                                                                   'hi_data': [d + engine.dy(rng, 1, 4, 0.5) for d in bdata]}})
             if 'staterror' in extra_types:
-                mods.append({'name': 'staterror_ch%d' % ci, 'type': 'staterror', 'data': [engine.dy(rng, 1, 4, 0.5) for _ in bdata]})
-            if 'shapesys' in extra_types and bi == 0:
+                unc = [engine.dy(rng, 1, 4, 0.5) for _ in bdata]
+                if zero_unc and last:
+                    unc = [0.0] * nb
+                mods.append({'name': 'staterror_ch%d' % ci, 'type': 'staterror', 'data': unc})
+            if 'shapesys' in extra_types and bi == 0 and not twin:
                 mods.append({'name': 'uncorr_ch%d' % ci, 'type': 'shapesys', 'data': [engine.dy(rng, 2, 6, 0.5) for _ in bdata]})
             if 'lumi' in extra_types:
                 mods.append({'name': 'lumi', 'type': 'lumi', 'data': None})
                 has_lumi = True
-            if 'normfactor' in extra_types and bi == 1:
+            if 'normfactor' in extra_types and (twin or bi == 1):
                 mods.append({'name': 'k_bkg', 'type': 'normfactor', 'data': None})
-            if 'shapefactor' in extra_types and bi == 1 and nch == 1 and nb > 1:
+            if 'shapefactor' in extra_types and (twin or bi == 1) and nbkg >= 2 and nch == 1 and nb > 1:
                 mods.append({'name': 'sf', 'type': 'shapefactor', 'data': None})
             samples.append({'name': 'bkg%d' % bi, 'data': bdata, 'modifiers': mods})
         chans.append({'name': 'ch%d' % ci, 'samples': samples})
-        tot = [sum(s['data'][b] for s in samples[1:]) + 0.4 * sig[b] for b in range(nb)]
+        tot = [sum(s['data'][b] for s in samples[1:]) + inject * sig[b] for b in range(nb)]
         obs.append({'name': 'ch%d' % ci, 'data': [float(max(0, round(t + rng.choice([-1, 0, 1]) * math.sqrt(t) * rng.random()))) for t in tot]})
-    params = [{'name': 'mu', 'bounds': [[0.0, 10.0]], 'inits': [1.0]}]
+    poi_bounds = rng.choice([[0.0, 10.0], [0.0, 10.0], [0.0, 10.0], [0.0, 20.0], [0.0, 5.0], [-1.0, 10.0]])
+    params = [{'name': 'mu', 'bounds': [list(poi_bounds)], 'inits': [1.0]}]
     if has_lumi:
         params.append({'name': 'lumi', 'auxdata': [1.0], 'sigmas': [0.02], 'inits': [1.0], 'bounds': [[0.5, 1.5]]})
+    scalars = sorted({(m['name'], m['type']) for c in chans for s in c['samples'] for m in s['modifiers']
+                      if (m['type'] == 'normsys' and m['name'].startswith('bkg_norm')) or m['name'] == 'k_bkg'})
+    if scalars and rng.random() < 0.35:
+        nm, ty = rng.choice(scalars)
+        params.append({'name': nm, 'fixed': True, 'inits': [rng.choice([0.5, -0.5, 1.0]) if ty == 'normsys' else rng.choice([0.875, 1.125])]})
+    if info is not None:
+        info.update(inject=inject, twin=twin, zero_unc=zero_unc, empty_bin=empty_bin, types=sorted(extra_types), poi_bounds=poi_bounds)
     return {'channels': chans, 'observations': obs, 'measurements': [{'name': 'm', 'config': {'poi': 'mu', 'parameters': params}}], 'version': '1.0.0'}
 
 
+def gen_case(rng, info=None):
+    info = {} if info is None else info
+    ws = gen_model(rng, info)
+    mu_test = rng.choice([0.8, 1.0, 1.5, 2.0]) + (info['inject'] if rng.random() < 0.8 else 0.0)
+    return ws, min(mu_test, info['poi_bounds'][1])
+
+
 # ------------------------------------------------------------------------------------------------
-# rewrites: each returns (new workspace, dict(mu_scale=..., nll_shift=...)) or None when not applicable
-def rw_reorder(rng, ws):
+# rewrites: f(rng, workspace, eff) -> (new workspace, new eff) or None when not applicable.
+# eff describes how the observables transform and what the CALLER passes to the inference functions:
+#   nll_shift : constant added to twice_nll by added constraint terms (None: constant not predicted, not compared)
+#   mu_scale  : POI values (tested value, fitted value, limits) are multiplied by this
+#   args      : None or dict(poi_bounds=[lo, hi], poi_init=x, fixed={parameter name: [values]}) passed as
+#               init_pars / par_bounds / fixed_params by the caller (on top of the model's own suggestions)
+#   muhat     : fitted POI of the original model (a hint for choosing scales; not an oracle)
+def new_eff(muhat=None):
+    return dict(nll_shift=0.0, mu_scale=1.0, args=None, muhat=muhat)
+
+
+def _cfg(w):
+    return w['measurements'][0]['config']
+
+
+def _all_mod_names(w):
+    return {m['name'] for c in w['channels'] for s in c['samples'] for m in s['modifiers']}
+
+
+def rw_reorder(rng, ws, eff):
     w = copy.deepcopy(ws)
     rng.shuffle(w['channels'])
     rng.shuffle(w['observations'])
@@ -61,16 +130,32 @@ def rw_reorder(rng, ws):
         rng.shuffle(c['samples'])
         for s in c['samples']:
             rng.shuffle(s['modifiers'])
-    rng.shuffle(w['measurements'][0]['config']['parameters'])
-    return w, {}
+    rng.shuffle(_cfg(w)['parameters'])
+    return w, eff
 
 
-def rw_rename(rng, ws):
+def _name_map(rng, names, keep=()):
+    """an injective renaming; half of the time one that reverses the sorted order, otherwise prefixes that move names around
+    (upper case, digits and '_' sort before lower case)"""
+    names = sorted(names)
+    if rng.random() < 0.5:
+        width = len(str(len(names)))
+        out = {n: 'r%0*d_%s' % (width, len(names) - 1 - i, n) for i, n in enumerate(names)}
+    else:
+        out = {n: rng.choice(['a_', 'zz_', 'M', 'Z9', '_', '0']) + n for n in names}
+    for n in keep:
+        if n in out:
+            out[n] = n
+    assert len(set(out.values())) == len(out)
+    return out
+
+
+def rw_rename(rng, ws, eff):
     w = copy.deepcopy(ws)
-    cmap = {c['name']: 'zz_' + c['name'][::-1] if rng.random() < 0.5 else 'A' + c['name'] for c in w['channels']}
-    names = sorted({m['name'] for c in w['channels'] for s in c['samples'] for m in s['modifiers']})
-    mmap = {n: (n if n == 'lumi' else rng.choice(['a_', 'zz_', 'M']) + n) for n in names}
-    smap = {s['name']: rng.choice(['x', 'zzz', 'B']) + s['name'] for c in w['channels'] for s in c['samples']}
+    eff = copy.deepcopy(eff)
+    cmap = _name_map(rng, [c['name'] for c in w['channels']])
+    mmap = _name_map(rng, _all_mod_names(w) | {p['name'] for p in _cfg(w)['parameters']}, keep=('lumi',))
+    smap = _name_map(rng, {s['name'] for c in w['channels'] for s in c['samples']})
     for c in w['channels']:
         c['name'] = cmap[c['name']]
         for s in c['samples']:
@@ -79,41 +164,101 @@ def rw_rename(rng, ws):
                 m['name'] = mmap[m['name']]
     for o in w['observations']:
         o['name'] = cmap[o['name']]
-    cfg = w['measurements'][0]['config']
+    cfg = _cfg(w)
     cfg['poi'] = mmap[cfg['poi']]
     for p in cfg['parameters']:
         p['name'] = mmap.get(p['name'], p['name'])
-    return w, {}
+    if eff['args'] and eff['args'].get('fixed'):
+        eff['args']['fixed'] = {mmap[k]: v for k, v in eff['args']['fixed'].items()}
+    return w, eff
 
 
-def rw_zero_sample(rng, ws):
+def rw_zero_sample(rng, ws, eff):
+    """a sample with zero yields: without modifiers, or carrying copies of modifiers that already exist in the channel (a factor
+    times zero is zero; zero histosys variations; zero MC-stat uncertainties) so that no parameter is added"""
     w = copy.deepcopy(ws)
     c = rng.choice(w['channels'])
-    c['samples'].insert(rng.randrange(len(c['samples']) + 1), {'name': 'empty', 'data': [0.0] * len(c['samples'][0]['data']), 'modifiers': []})
-    return w, {}
+    nb = len(c['samples'][0]['data'])
+    mods = []
+    if rng.random() < 0.5:
+        donor = rng.choice(c['samples'])
+        for m in donor['modifiers']:
+            if m['type'] in ('normfactor', 'normsys', 'lumi', 'shapefactor'):
+                mods.append(copy.deepcopy(m))
+            elif m['type'] == 'histosys':
+                mods.append({'name': m['name'], 'type': 'histosys', 'data': {'lo_data': [0.0] * nb, 'hi_data': [0.0] * nb}})
+            elif m['type'] == 'staterror':
+                mods.append({'name': m['name'], 'type': 'staterror', 'data': [0.0] * nb})
+    c['samples'].insert(rng.randrange(len(c['samples']) + 1), {'name': 'empty', 'data': [0.0] * nb, 'modifiers': mods})
+    return w, eff
 
 
-def rw_null_systematic(rng, ws):
+def rw_null_systematic(rng, ws, eff):
+    """a systematic of each constrained type whose variations equal the nominal"""
     w = copy.deepcopy(ws)
+    eff = copy.deepcopy(eff)
     c = rng.choice(w['channels'])
     s = rng.choice(c['samples'])
-    if rng.random() < 0.5:
-        s['modifiers'].append({'name': 'null_norm', 'type': 'normsys', 'data': {'lo': 1.0, 'hi': 1.0}})
+    nb = len(s['data'])
+    used = _all_mod_names(w)
+    kinds = ['normsys', 'histosys']
+    if not any(m['type'] == 'staterror' for m in s['modifiers']):
+        kinds.append('staterror')
+    if not any(m['type'] == 'shapesys' for m in s['modifiers']):
+        kinds.append('shapesys')
+    if 'lumi' not in used and not any(p['name'] == 'lumi' for p in _cfg(w)['parameters']):
+        kinds.append('lumi')
+    kind = rng.choice(kinds)
+    name = 'null_' + kind
+    while name in used:
+        name += 'x'
+    shift = None
+    if kind == 'normsys':
+        s['modifiers'].append({'name': name, 'type': 'normsys', 'data': {'lo': 1.0, 'hi': 1.0}})
+        shift = LOG2PI                                   # one more unit Gaussian constraint at its maximum
+    elif kind == 'histosys':
+        s['modifiers'].append({'name': name, 'type': 'histosys', 'data': {'lo_data': list(s['data']), 'hi_data': list(s['data'])}})
+        shift = LOG2PI
+    elif kind == 'staterror':
+        s['modifiers'].append({'name': name, 'type': 'staterror', 'data': [0.0] * nb})      # zero width: the factors stay at one
+    elif kind == 'shapesys':
+        s['modifiers'].append({'name': name, 'type': 'shapesys', 'data': [0.0] * nb})
     else:
-        s['modifiers'].append({'name': 'null_shape', 'type': 'histosys', 'data': {'lo_data': list(s['data']), 'hi_data': list(s['data'])}})
-    return w, dict(nll_shift=math.log(2 * math.pi))     # one more unit Gaussian constraint at its maximum
+        sigma = rng.choice([0.02, 0.05])
+        s['modifiers'].append({'name': 'lumi', 'type': 'lumi', 'data': None})
+        _cfg(w)['parameters'].append({'name': 'lumi', 'auxdata': [1.0], 'sigmas': [sigma], 'inits': [1.0], 'bounds': [[0.5, 1.5]], 'fixed': True})
+        shift = math.log(2 * math.pi * sigma * sigma)    # Gaussian of width sigma at its maximum
+    # the normalisation pyhf gives to constraint terms of parameters that cannot move (zero width) is its own choice: the
+    # property only asks for a constant, which the equality of the test statistics (differences of two maxima) checks
+    eff['nll_shift'] = None if (shift is None or eff['nll_shift'] is None) else eff['nll_shift'] + shift
+    eff['null_kind'] = kind
+    return w, eff
 
 
-def rw_split_channel(rng, ws):
+def rw_split_channel(rng, ws, eff):
+    """cut one channel into several channels at any non-empty set of bin positions; per-bin parameters are cut with it"""
     w = copy.deepcopy(ws)
-    cands = [c for c in w['channels'] if len(c['samples'][0]['data']) >= 2 and not any(m['type'] == 'shapefactor' for s in c['samples'] for m in s['modifiers'])]
+    configured = {p['name'] for p in _cfg(w)['parameters']}
+    cands = [c for c in w['channels'] if len(c['samples'][0]['data']) >= 2
+             and not any(m['type'] in PER_BIN and m['name'] in configured for s in c['samples'] for m in s['modifiers'])]
     if not cands:
         return None
     c = rng.choice(cands)
+    perbin = {m['name'] for s in c['samples'] for m in s['modifiers'] if m['type'] in PER_BIN}
+    if any(m['name'] in perbin for c2 in w['channels'] if c2 is not c for s in c2['samples'] for m in s['modifiers']):
+        return None                       # a per-bin parameter set shared with another channel
     nb = len(c['samples'][0]['data'])
-    k = rng.randrange(1, nb)
+    if rng.random() < 0.5:
+        cuts = [rng.randrange(1, nb)]
+    else:
+        cuts = sorted(rng.sample(range(1, nb), rng.randrange(1, nb)))
+    edges = [0] + cuts + [nb]
     parts = []
-    for tag, sl in (('_lo', slice(0, k)), ('_hi', slice(k, nb))):
+    newobs = []
+    o = [x for x in w['observations'] if x['name'] == c['name']][0]
+    for pi in range(len(edges) - 1):
+        sl = slice(edges[pi], edges[pi + 1])
+        tag = '_p%d' % pi
         cc = copy.deepcopy(c)
         cc['name'] = c['name'] + tag
         for s in cc['samples']:
@@ -121,111 +266,280 @@ def rw_split_channel(rng, ws):
             for m in s['modifiers']:
                 if m['type'] == 'histosys':
                     m['data'] = {'lo_data': m['data']['lo_data'][sl], 'hi_data': m['data']['hi_data'][sl]}
-                elif m['type'] in ('staterror', 'shapesys'):
-                    m['data'] = m['data'][sl]
+                elif m['type'] in PER_BIN:
+                    if m['data'] is not None:
+                        m['data'] = m['data'][sl]
                     m['name'] = m['name'] + tag
         parts.append(cc)
-    w['channels'] = [x for x in w['channels'] if x['name'] != c['name']] + parts
-    o = [x for x in w['observations'] if x['name'] == c['name']][0]
-    w['observations'] = [x for x in w['observations'] if x['name'] != c['name']] + [
-        {'name': c['name'] + '_lo', 'data': o['data'][:k]}, {'name': c['name'] + '_hi', 'data': o['data'][k:]}]
-    return w, {}
+        newobs.append({'name': cc['name'], 'data': o['data'][sl]})
+    pos = rng.randrange(len(w['channels']))
+    rest = [x for x in w['channels'] if x['name'] != c['name']]
+    w['channels'] = rest[:pos] + parts + rest[pos:]
+    w['observations'] = [x for x in w['observations'] if x['name'] != c['name']] + newobs
+    return w, eff
 
 
-def rw_merge_samples(rng, ws):
-    """split one background sample into two samples carrying identical modifiers (the inverse of merging)"""
+def _mod_signature(s):
+    return json.dumps(sorted((m['name'], m['type'], json.dumps(m['data'], sort_keys=True) if m['type'] == 'normsys' else '') for m in s['modifiers']))
+
+
+def _weights(rng, n, pool, force_zero=None):
+    """n non-negative weights summing to one, zeros allowed (not all zero)"""
+    while True:
+        w = [rng.choice(pool) for _ in range(n)]
+        if force_zero is not None:
+            w[force_zero] = 0
+        if sum(w) > 0:
+            return [x / sum(w) for x in w]
+
+
+def rw_merge_samples(rng, ws, eff, direction=None):
+    """merging samples that carry identical modifiers: yields added, histosys templates added, MC-stat uncertainties added in
+    quadrature.  Either direction: merge an existing group of 2-3 such samples, or split one sample into 2-3 parts with
+    different per-bin fractions (a part may be empty in a bin and keep an uncertainty there, or have no uncertainty at all)"""
     w = copy.deepcopy(ws)
-    cands = [(c, s) for c in w['channels'] for s in c['samples'] if s['name'].startswith('bkg')
-             and all(m['type'] in ('normfactor', 'normsys', 'lumi', 'histosys') for m in s['modifiers'])]
-    if not cands:
-        return None
-    c, s = rng.choice(cands)
-    f = rng.choice([0.25, 0.5, 0.75])
-    a, b = copy.deepcopy(s), copy.deepcopy(s)
-    a['name'], b['name'] = s['name'] + '_part1', s['name'] + '_part2'
-    for part, frac in ((a, f), (b, 1 - f)):
-        part['data'] = [d * frac for d in s['data']]
-        for m in part['modifiers']:
-            if m['type'] == 'histosys':
-                m['data'] = {'lo_data': [d * frac for d in m['data']['lo_data']], 'hi_data': [d * frac for d in m['data']['hi_data']]}
-    # the same sample must be split the same way in every channel where it appears with histosys sharing: do it channel-locally only
-    c['samples'] = [x for x in c['samples'] if x['name'] != s['name']] + [a, b]
-    return w, {}
-
-
-def rw_signal_rescale(rng, ws):
-    w = copy.deepcopy(ws)
-    poi = w['measurements'][0]['config']['poi']
-    is_sig = lambda s: any(m['type'] == 'normfactor' and m['name'] == poi for m in s['modifiers'])
-    if any(m['type'] in ('staterror', 'shapesys') for c in w['channels'] for s in c['samples'] if is_sig(s) for m in s['modifiers']):
-        return None
-    if not any(is_sig(s) for c in w['channels'] for s in c['samples']):
-        return None
-    k = rng.choice([0.5, 2.0, 4.0])
+    eff = copy.deepcopy(eff)
+    groups, single = [], []
     for c in w['channels']:
+        by = {}
         for s in c['samples']:
-            if is_sig(s):
-                s['data'] = [d * k for d in s['data']]
-                for m in s['modifiers']:
-                    if m['type'] == 'histosys':
-                        m['data'] = {'lo_data': [d * k for d in m['data']['lo_data']], 'hi_data': [d * k for d in m['data']['hi_data']]}
-    for p in w['measurements'][0]['config']['parameters']:
-        if p['name'] == poi:
-            lo, hi = p['bounds'][0]
-            p['bounds'] = [[lo / k, hi / k]]
-            p['inits'] = [p['inits'][0] / k]
-    return w, dict(mu_scale=1.0 / k)
+            if all(m['type'] in MERGEABLE for m in s['modifiers']):
+                by.setdefault(_mod_signature(s), []).append(s)
+                single.append((c, s))
+        groups += [(c, g) for g in by.values() if len(g) >= 2]
+    if direction is None:
+        direction = 'merge' if (groups and (not single or rng.random() < 0.5)) else 'split'
+    if direction == 'merge':
+        if not groups:
+            return None
+        c, g = rng.choice(groups)
+        if len(g) > 2 and rng.random() < 0.4:
+            g = rng.sample(g, 2)
+        nb = len(g[0]['data'])
+        merged = {'name': g[0]['name'] + '_merged', 'data': [math.fsum(s['data'][b] for s in g) for b in range(nb)], 'modifiers': []}
+        for m in g[0]['modifiers']:
+            others = [[m2 for m2 in s['modifiers'] if m2['name'] == m['name'] and m2['type'] == m['type']][0] for s in g]
+            mm = copy.deepcopy(m)
+            if m['type'] == 'histosys':
+                mm['data'] = {k: [math.fsum(o['data'][k][b] for o in others) for b in range(nb)] for k in ('lo_data', 'hi_data')}
+            elif m['type'] == 'staterror':
+                mm['data'] = [math.sqrt(math.fsum(o['data'][b] ** 2 for o in others)) for b in range(nb)]
+            merged['modifiers'].append(mm)
+        ids = {id(s) for s in g}
+        pos = min(i for i, s in enumerate(c['samples']) if id(s) in ids)
+        c['samples'] = [s for s in c['samples'] if id(s) not in ids]
+        c['samples'].insert(min(pos, len(c['samples'])), merged)
+        eff['merge'] = dict(direction='merge', n=len(g))
+        return w, eff
+    if not single:
+        return None
+    c, s = rng.choice(single)
+    nb = len(s['data'])
+    n = rng.choice([2, 2, 3])
+    no_unc = rng.randrange(n) if rng.random() < 0.4 else None           # one part without any MC-stat uncertainty
+    frac = [_weights(rng, n, [0, 1, 1, 2, 3, 5]) for _ in range(nb)]        # yields
+    quad = [_weights(rng, n, [0, 1, 2, 4], force_zero=no_unc) for _ in range(nb)]   # shares of the squared uncertainty
+    var = [_weights(rng, n, [0, 1, 1, 2]) for _ in range(nb)]               # shares of the histosys variations
+    parts = []
+    for j in range(n):
+        p = {'name': '%s_part%d' % (s['name'], j + 1), 'data': [s['data'][b] * frac[b][j] for b in range(nb)], 'modifiers': []}
+        for m in s['modifiers']:
+            mm = copy.deepcopy(m)
+            if m['type'] == 'histosys':
+                mm['data'] = {k: [p['data'][b] + (m['data'][k][b] - s['data'][b]) * var[b][j] for b in range(nb)] for k in ('lo_data', 'hi_data')}
+            elif m['type'] == 'staterror':
+                mm['data'] = [m['data'][b] * math.sqrt(quad[b][j]) for b in range(nb)]
+            p['modifiers'].append(mm)
+        parts.append(p)
+    pos = [i for i, x in enumerate(c['samples']) if x is s][0]
+    c['samples'] = c['samples'][:pos] + parts + c['samples'][pos + 1:]
+    eff['merge'] = dict(direction='split', n=n, part_without_uncertainty=no_unc is not None,
+                        empty_bin_with_uncertainty=any(frac[b][j] == 0 and quad[b][j] > 0 for b in range(nb) for j in range(n))
+                        and any(m['type'] == 'staterror' for m in s['modifiers']))
+    return w, eff
+
+
+def rw_split_samples(rng, ws, eff):
+    return rw_merge_samples(rng, ws, eff, direction='split')
+
+
+def _is_sig(s, poi):
+    return any(m['type'] == 'normfactor' and m['name'] == poi for m in s['modifiers'])
+
+
+def rw_signal_rescale(rng, ws, eff):
+    """all yields of the signal times k; POI bounds and starting value divided by k (wherever they live: in the measurement
+    or in the caller's arguments).  k is also chosen such that the best fit leaves the range an unconfigured POI would have"""
+    w = copy.deepcopy(ws)
+    eff = copy.deepcopy(eff)
+    cfg = _cfg(w)
+    poi = cfg['poi']
+    sig = [s for c in w['channels'] for s in c['samples'] if _is_sig(s, poi)]
+    if not sig or any(m['type'] in ('staterror', 'shapesys') for s in sig for m in s['modifiers']):
+        return None
+    ks = [0.5, 2.0, 4.0, 0.25]
+    muhat = (eff.get('muhat') or 0.0) * eff['mu_scale']
+    if muhat > 0.05 and rng.random() < 0.6:
+        ks = [muhat / (NORMFACTOR_DEFAULT['bounds'][1] * r) for r in (1.25, 2.0, 4.0)]
+    k = rng.choice(ks)
+    for s in sig:
+        s['data'] = [d * k for d in s['data']]
+        for m in s['modifiers']:
+            if m['type'] == 'histosys':
+                m['data'] = {kk: [d * k for d in m['data'][kk]] for kk in ('lo_data', 'hi_data')}
+    args = eff['args'] or {}
+    entry = [p for p in cfg['parameters'] if p['name'] == poi]
+    if not entry:
+        entry = [{'name': poi}]
+        cfg['parameters'].append(entry[0])
+    p = entry[0]
+    if 'poi_bounds' in args:
+        args['poi_bounds'] = [x / k for x in args['poi_bounds']]
+    else:
+        lo, hi = p['bounds'][0] if 'bounds' in p else NORMFACTOR_DEFAULT['bounds']
+        p['bounds'] = [[lo / k, hi / k]]
+    if 'poi_init' in args:
+        args['poi_init'] = args['poi_init'] / k
+    else:
+        p['inits'] = [(p['inits'][0] if 'inits' in p else NORMFACTOR_DEFAULT['init']) / k]
+    eff['mu_scale'] = eff['mu_scale'] / k
+    eff['k'] = eff.get('k', 1.0) * k
+    return w, eff
+
+
+def rw_config_to_args(rng, ws, eff):
+    """the fit configuration of the measurement (POI range and starting value, fixed parameters and their values) is removed
+    from the workspace and handed to the inference functions by the caller as par_bounds / init_pars / fixed_params"""
+    w = copy.deepcopy(ws)
+    eff = copy.deepcopy(eff)
+    cfg = _cfg(w)
+    args = eff['args'] or {}
+    moved = False
+    keep = []
+    for p in cfg['parameters']:
+        if p['name'] == cfg['poi']:
+            if 'bounds' in p and 'poi_bounds' not in args:
+                args['poi_bounds'] = list(p.pop('bounds')[0])
+                moved = True
+            if 'inits' in p and 'poi_init' not in args and not p.get('fixed'):
+                args['poi_init'] = p.pop('inits')[0]
+                moved = True
+        elif p.get('fixed') and 'inits' in p and set(p) <= {'name', 'fixed', 'inits'}:
+            args.setdefault('fixed', {})[p['name']] = list(p.pop('inits'))
+            p.pop('fixed')
+            moved = True
+        if set(p) - {'name'}:
+            keep.append(p)
+    if not moved:
+        return None
+    cfg['parameters'] = keep
+    eff['args'] = args
+    return w, eff
 
 
 REWRITES = [('reorder', rw_reorder), ('rename', rw_rename), ('zero-sample', rw_zero_sample), ('null-systematic', rw_null_systematic),
-            ('split-channel', rw_split_channel), ('split-identical-samples', rw_merge_samples), ('signal-rescale', rw_signal_rescale)]
+            ('split-channel', rw_split_channel), ('merge-samples', rw_merge_samples), ('split-samples', rw_split_samples),
+            ('signal-rescale', rw_signal_rescale), ('config-to-arguments', rw_config_to_args)]
+RW = dict(REWRITES)
+
+
+def apply_plan(prng, ws, plan, muhat):
+    w2, eff, names = copy.deepcopy(ws), new_eff(muhat), []
+    for nm in plan:
+        r = RW[nm](prng, w2, eff)
+        if r is None:
+            continue
+        w2, eff = r
+        names.append(nm)
+    return w2, eff, names
 
 
 # ------------------------------------------------------------------------------------------------
-def infer(ws, mu_test, backend='numpy', optimizer='scipy', limit=False):
+def set_backend(backend, optimizer, tight):
     import pyhf
-    pyhf.set_backend(backend, optimizer, precision='64b')
+    if tight:
+        opt = (pyhf.optimize.scipy_optimizer(tolerance=1e-12, maxiter=200000) if optimizer == 'scipy'
+               else pyhf.optimize.minuit_optimizer(tolerance=1e-4, maxiter=200000))
+        pyhf.set_backend(backend, opt, precision='64b')
+    else:
+        pyhf.set_backend(backend, optimizer, precision='64b')
+
+
+def infer(ws, mu_test, backend='numpy', optimizer='scipy', limit=False, args=None, tight=False):
+    """every observable the property names, through the public API.  `args` (see new_eff) are the caller's arguments; when
+    there are none the API defaults are used (hypotest/fit called without init_pars/par_bounds/fixed_params)"""
+    import pyhf
+    set_backend(backend, optimizer, tight)
+    TS = pyhf.infer.test_statistics
     w = pyhf.Workspace(ws)
     m = w.model(modifier_settings=MS)
     data = w.data(m)
+    pi = m.config.poi_index
+    init, bounds, fixed = m.config.suggested_init(), m.config.suggested_bounds(), m.config.suggested_fixed()
+    kw = {}
+    if args:
+        if 'poi_bounds' in args:
+            bounds[pi] = (float(args['poi_bounds'][0]), float(args['poi_bounds'][1]))
+        if 'poi_init' in args:
+            init[pi] = float(args['poi_init'])
+        for name, vals in (args.get('fixed') or {}).items():
+            sl = m.config.par_slice(name)
+            for j, i in enumerate(range(sl.start, sl.stop)):
+                fixed[i] = True
+                init[i] = float(vals[j])
+        kw = dict(init_pars=init, par_bounds=bounds, fixed_params=fixed)
+    tl = pyhf.tensorlib
+    f = lambda x: float(tl.tolist(x)) if not isinstance(x, float) else x
     out = {}
-    best, twice_nll = pyhf.infer.mle.fit(data, m, return_fitted_val=True)
-    out['twice_nll'] = float(twice_nll)
-    out['muhat'] = float(pyhf.tensorlib.tolist(best)[m.config.poi_index])
-    cls_obs, cls_exp = pyhf.infer.hypotest(mu_test, data, m, test_stat='qtilde', return_expected_set=True)
-    out['cls_obs'] = float(cls_obs)
-    out['cls_exp'] = [float(x) for x in cls_exp]
-    init = m.config.suggested_init()
-    bounds = m.config.suggested_bounds()
-    fixed = m.config.suggested_fixed()
-    out['qtilde'] = float(pyhf.infer.test_statistics.qmu_tilde(mu_test, data, m, init, bounds, fixed))
+    best, twice_nll = pyhf.infer.mle.fit(data, m, return_fitted_val=True, **kw)
+    out['twice_nll'] = f(twice_nll)
+    out['muhat'] = float(tl.tolist(best)[pi])
+    ts = 'qtilde' if bounds[pi][0] == 0 else 'q'
+    out['test_stat'] = ts
+    cls_obs, tails, cls_exp = pyhf.infer.hypotest(mu_test, data, m, test_stat=ts, return_tail_probs=True, return_expected_set=True, **kw)
+    out['cls_obs'] = f(cls_obs)
+    out['clsb_obs'], out['clb_obs'] = f(tails[0]), f(tails[1])
+    out['cls_exp'] = [f(x) for x in cls_exp]
+    stat = TS.qmu_tilde if ts == 'qtilde' else TS.qmu
+    out['q_obs'] = f(stat(mu_test, data, m, init, bounds, fixed))
+    out['q0_obs'] = f(TS.q0(0.0, data, m, init, bounds, fixed))
+    asimov_b = pyhf.infer.calculators.generate_asimov_data(0.0, data, m, init, bounds, fixed)
+    out['q_asimov'] = f(stat(mu_test, asimov_b, m, init, bounds, fixed))
+    asimov_s = pyhf.infer.calculators.generate_asimov_data(mu_test, data, m, init, bounds, fixed)
+    out['q0_asimov'] = f(TS.q0(0.0, asimov_s, m, init, bounds, fixed))
     if limit:
         import numpy as np
-        hi = bounds[m.config.poi_index][1]
-        scan = np.linspace(0.0, min(hi, 6.0 * max(mu_test, 0.2)), 13)
-        obs_lim, exp_lims = pyhf.infer.intervals.upper_limits.upper_limit(data, m, scan, level=0.05)
-        out['limit_obs'] = float(obs_lim)
-        out['limit_exp'] = [float(x) for x in exp_lims]
+        hi = bounds[pi][1]
+        scan = np.linspace(0.0, min(hi, 6.0 * max(mu_test, 0.2 * hi / 10.0)), 11)
+        obs_lim, exp_lims = pyhf.infer.intervals.upper_limits.upper_limit(data, m, scan, level=0.05, test_stat=ts, **kw)
+        out['limit_obs'] = f(obs_lim)
+        out['limit_exp'] = [f(x) for x in exp_lims]
     return out
 
 
 def compare(base, new, eff, tol_cls=3e-4, tol_nll=2e-4, check_limit=False):
+    """the relation the property states between the observables of the original and of the rewritten model"""
     bad = []
     shift = eff.get('nll_shift', 0.0)
-    if abs((new['twice_nll'] - shift) - base['twice_nll']) > tol_nll * max(1.0, abs(base['twice_nll'])):
+    if shift is not None and abs((new['twice_nll'] - shift) - base['twice_nll']) > tol_nll * max(1.0, abs(base['twice_nll'])):
         bad.append('maximised likelihood: twice_nll %.8g vs %.8g (+%.4g expected)' % (new['twice_nll'], base['twice_nll'], shift))
-    if abs(new['cls_obs'] - base['cls_obs']) > tol_cls + 2e-3 * base['cls_obs']:
-        bad.append('CLs observed %.6g vs %.6g' % (new['cls_obs'], base['cls_obs']))
-    if any(abs(a - b) > tol_cls + 2e-3 * b for a, b in zip(new['cls_exp'], base['cls_exp'])):
+    for key, label in (('cls_obs', 'CLs observed'), ('clsb_obs', 'CLs+b observed'), ('clb_obs', 'CLb observed')):
+        if key in base and key in new and not abs(new[key] - base[key]) <= tol_cls + 2e-3 * base[key]:
+            bad.append('%s %.6g vs %.6g' % (label, new[key], base[key]))
+    if not all(abs(a - b) <= tol_cls + 2e-3 * b for a, b in zip(new['cls_exp'], base['cls_exp'])):
         bad.append('CLs expected %r vs %r' % (new['cls_exp'], base['cls_exp']))
-    if abs(new['qtilde'] - base['qtilde']) > 5e-4 * max(1.0, base['qtilde']):
-        bad.append('qtilde %.6g vs %.6g' % (new['qtilde'], base['qtilde']))
+    for key, label in (('q_obs', 'test statistic (observed)'), ('q_asimov', 'test statistic (Asimov)'),
+                       ('q0_obs', 'q0 (observed)'), ('q0_asimov', 'q0 (Asimov)')):
+        if key in base and key in new and not abs(new[key] - base[key]) <= 5e-4 * max(1.0, base[key]):
+            bad.append('%s %.6g vs %.6g' % (label if 'q0' in key else base.get('test_stat', 'q') + ' ' + label, new[key], base[key]))
     sc = eff.get('mu_scale', 1.0)
-    if abs(new['muhat'] - base['muhat'] * sc) > 5e-2 * abs(base['muhat'] * sc) + 3e-2 * max(sc, 1e-3):
+    if not abs(new['muhat'] - base['muhat'] * sc) <= 5e-2 * abs(base['muhat'] * sc) + 3e-2 * max(sc, 1e-3):
         bad.append('fitted POI %.6g vs %.6g' % (new['muhat'], base['muhat'] * sc))
     if check_limit and 'limit_obs' in base and 'limit_obs' in new:
-        if abs(new['limit_obs'] - base['limit_obs'] * sc) > 2e-2 * base['limit_obs'] * sc:
+        if not abs(new['limit_obs'] - base['limit_obs'] * sc) <= 2e-2 * base['limit_obs'] * sc:
             bad.append('upper limit %.6g vs %.6g' % (new['limit_obs'], base['limit_obs'] * sc))
+        if not all(abs(a - b * sc) <= 2e-2 * b * sc for a, b in zip(new['limit_exp'], base['limit_exp'])):
+            bad.append('expected upper limits %r vs %r (x %.6g)' % (new['limit_exp'], base['limit_exp'], sc))
     return bad
 
 
@@ -233,108 +547,318 @@ def sensitive(r):
     return r['cls_exp'][2] < 0.9 and r['cls_obs'] == r['cls_obs']
 
 
+def check_pair(ws, w2, mu_test, eff, base=None, backend='numpy', optimizer='scipy', limit=False):
+    """returns (status, detail): status in ok / violated / error; a mismatch is confirmed with tightly converged fits of both
+    optimisers before it is reported (the numerical optimisers agree within their tolerance only)"""
+    detail = {}
+    mu2 = mu_test * eff.get('mu_scale', 1.0)
+    if base is None:
+        base = infer(ws, mu_test, backend, optimizer, limit=limit)
+    detail['base'] = base
+    try:
+        new = infer(w2, mu2, backend, optimizer, limit='limit_obs' in base, args=eff.get('args'))
+    except Exception as e:
+        detail['error'] = '%s: %s' % (core.exc_enum(e), str(e)[:200])
+        detail['exc'] = core.exc_enum(e)
+        return 'error', detail
+    detail['new'] = new
+    bad = compare(base, new, eff, check_limit=True)
+    if not bad:
+        return 'ok', detail
+    detail['first'] = bad
+    confirmed = []
+    ran = 0
+    for opt in ('scipy', 'minuit'):
+        try:
+            b2 = infer(ws, mu_test, backend, opt, limit='limit_obs' in base, tight=True)
+            n2 = infer(w2, mu2, backend, opt, limit='limit_obs' in base, args=eff.get('args'), tight=True)
+        except Exception as e:
+            detail.setdefault('retry_failed', []).append('%s: %s' % (opt, core.exc_enum(e)))
+            continue
+        ran += 1
+        bad2 = compare(b2, n2, eff, check_limit=True)
+        detail['retry_' + opt] = dict(base=b2, new=n2, mismatch=bad2)
+        if not bad2:
+            return 'ok-after-retry', detail
+        confirmed = confirmed or bad2
+    if ran == 0:
+        return 'ok-after-retry', detail          # nothing could be confirmed: an optimiser matter (C05), not an invariance verdict
+    detail['confirmed'] = confirmed
+    return 'violated', detail
+
+
+# ------------------------------------------------------------------------------------------------
+def plans_for(prng, quick):
+    singles = [[n] for n, _ in REWRITES]
+    comps = [['signal-rescale', 'config-to-arguments'], ['split-samples', prng.choice(['merge-samples', 'split-samples'])],
+             [n for n, _ in prng.sample(REWRITES, 3)]]
+    if not quick:
+        comps += [['config-to-arguments', 'signal-rescale', 'rename'], [n for n, _ in prng.sample(REWRITES, 4)],
+                  ['merge-samples', 'split-channel', 'reorder']]
+    return singles + comps
+
+
+def base_job(job):
+    """stage 1 (worker process): generate the model of this seed and run the full inference on it.  Plain data only."""
+    import time
+    t0 = time.time()
+    logging.getLogger('pyhf').setLevel(logging.CRITICAL)
+    info = {}
+    ws, mu_test = gen_case(core.random.Random(job['seed']), info)
+    res = dict(k=job['k'], info=info, notes=[], status='ok', mu_test=mu_test)
+    try:
+        base = infer(ws, mu_test, job['backend'], job['optimizer'], limit=job['limit'])
+    except Exception as e:
+        res['status'] = 'base-failed'
+        res['notes'].append('base model inference failed (%s: %s); skipped' % (core.exc_enum(e), str(e)[:120]))
+        return res
+    res['base'] = base
+    res['wall'] = round(time.time() - t0, 1)
+    if not sensitive(base):
+        res['status'] = 'insensitive'
+    return res
+
+
+def features_of(eff, detail):
+    feats = []
+    if eff.get('merge'):
+        feats += ['merge:%s' % eff['merge']['direction']] + [kk for kk in ('part_without_uncertainty', 'empty_bin_with_uncertainty') if eff['merge'].get(kk)]
+    if eff.get('args'):
+        feats.append('caller-arguments')
+        lo, hi = NORMFACTOR_DEFAULT['bounds']
+        if 'new' in detail and not (lo <= detail['new']['muhat'] <= hi):
+            feats.append('best-fit-outside-default-bounds')
+        if eff['args'].get('fixed'):
+            feats.append('fixed-by-caller')
+    if eff.get('null_kind'):
+        feats.append('null:' + eff['null_kind'])
+    return feats
+
+
+def plan_job(job):
+    """stage 2 (worker process): one rewrite plan applied to the model of this seed, inference on the rewritten model, comparison
+    with the stage-1 result.  Plain data only."""
+    import time
+    t0 = time.time()
+    logging.getLogger('pyhf').setLevel(logging.CRITICAL)
+    backend, optimizer, base, k = job['backend'], job['optimizer'], job['base'], job['k']
+    ws, mu_test = gen_case(core.random.Random(job['seed']))
+    prng = core.random.Random(job['seed'] * 131 + job['pi'])
+    w2, eff, names = apply_plan(prng, ws, job['plan'], base['muhat'])
+    res = dict(k=k, names=names, fail=None, features=[], limit=False, retry=False)
+    if not names:
+        return res
+    label = names[0] if len(names) == 1 else 'composition'
+    res['label'] = label
+    status, detail = check_pair(ws, w2, mu_test, eff, base=base, backend=backend, optimizer=optimizer)
+    res['limit'] = 'limit_obs' in detail.get('new', {})
+    res['retry'] = 'first' in detail
+    res['features'] = features_of(eff, detail)
+    res['sig'] = '+'.join(names) + json.dumps([[len(c['samples']), len(c['samples'][0]['data'])] for c in ws['channels']]) + str(k)
+    eff_out = {kk: eff[kk] for kk in ('nll_shift', 'mu_scale', 'args') if kk in eff}
+    if status == 'error':
+        res['fail'] = dict(signature='rewrite-fails:%s:%s' % (label, detail['exc']),
+                           what='inference on the rewritten model (%s) fails: %s' % ('+'.join(names), detail['error']),
+                           replay=dict(workspace=ws, rewritten=w2, rewrites=names, mu_test=mu_test, eff=eff_out, backend=backend, optimizer=optimizer,
+                                       observed=detail['error'], expected=dict(relation='equal to the original model up to eff (mu_scale, nll_shift)', original=base)))
+    elif status == 'violated':
+        res['fail'] = dict(signature='not-invariant:' + (label if len(names) == 1 else 'composition:' + names[0]),
+                           what='inference changes under the likelihood-preserving rewrite %s: %s' % ('+'.join(names), '; '.join(detail['first'])[:300]),
+                           replay=dict(workspace=ws, rewritten=w2, rewrites=names, mu_test=mu_test, eff=eff_out, backend=backend, optimizer=optimizer,
+                                       observed=detail['new'], expected=dict(relation='equal to the original model up to eff (mu_scale, nll_shift)', original=detail['base']),
+                                       confirmed_with_tight_fits=detail['confirmed'],
+                                       theorem='C15_*_invariant (Ref level) lifted through C01/C02'))
+    res['wall'] = round(time.time() - t0, 1)
+    return res
+
+
+def model_job(job):
+    """both stages for one model in this process (used by tests and by replay of a generated case)"""
+    b = base_job(dict(job, limit=job.get('limit', job['k'] % 4 == 0)))
+    out = dict(base=b, plans=[])
+    if b['status'] == 'ok':
+        for pi, plan in enumerate(plans_for(core.random.Random(job['seed'] ^ 0x5bd1e995), job['quick'])):
+            out['plans'].append(plan_job(dict(job, pi=pi, plan=plan, base=b['base'])))
+    return out
+
+
+def load_corpus():
+    d = os.path.join(core.VERIF, 'corpus', 'C15')
+    out = []
+    if os.path.isdir(d):
+        for fn in sorted(os.listdir(d)):
+            if fn.endswith('.json'):
+                body = json.load(open(os.path.join(d, fn)))
+                for c in body.get('cases', []):
+                    out.append((fn, c))
+    return out
+
+
+def report(ctx, fails):
+    """one violation per signature: the smallest failing instance"""
+    by = {}
+    for f in fails:
+        by.setdefault(f['signature'], []).append(f)
+    for sig in sorted(by):
+        f = min(by[sig], key=lambda x: len(json.dumps(x['replay']['rewritten'])))
+        f['replay']['n_failing_cases'] = len(by[sig])
+        ctx.violation(sig, f['what'], f['replay'])
+
+
 def run(ctx):
+    import concurrent.futures
+    import multiprocessing
     import pyhf
     logging.getLogger('pyhf').setLevel(logging.CRITICAL)
     rng = ctx.rng
     ok, txt = core.prove(ctx)
     tie = None if ok else 'proof obligations of props/C15.v no longer check: ' + txt[-1500:]
-    nmodels = ctx.n(7, 60)
-    configs = [('numpy', 'scipy')]
+    nmodels = ctx.n(12, 60)
+    primary = [('numpy', 'scipy')] if ctx.quick else [('numpy', 'scipy'), ('numpy', 'minuit'), ('jax', 'scipy'), ('pytorch', 'minuit')]
     extra = [('numpy', 'minuit'), ('jax', 'scipy'), ('pytorch', 'scipy'), ('tensorflow', 'scipy')]
-    stats = dict(models=0, insensitive_skipped=0, rewrites={}, configs={}, compositions=0, limits=0, retries=0)
-    sigs = set()
+    stats = dict(models=0, insensitive_skipped=0, rewrites={}, features={}, configs={}, primary_configs={}, limits=0, retries=0, corpus=0,
+                 generator=dict(twin=0, zero_unc=0, empty_bin=0, excess=0, deficit=0, poi_bounds={}), slowest_s=0.0)
+    fails = []
     evaluations = 0
+    sigs = set()
+
+    # ---- generated models, stage 1 in worker processes: the original models ----
+    jobs = []
     for k in range(nmodels):
-        prng = core.random.Random(rng.randrange(1 << 30))
-        ws = gen_model(prng)
-        mu_test = prng.choice([0.8, 1.0, 1.5, 2.0])
-        try:
-            base = infer(ws, mu_test, limit=(k % 3 == 0))
-        except Exception as e:
-            ctx.notes.append('base model inference failed (%s); skipped' % core.exc_enum(e))
-            continue
-        if not sensitive(base):
+        be, opt = primary[k % len(primary)]
+        jobs.append(dict(seed=rng.randrange(1 << 30), k=k, quick=ctx.quick, backend=be, optimizer=opt, limit=(k % 4 == 0)))
+    workers = max(2, min(8, core.NCPU // 2))
+    pool = concurrent.futures.ProcessPoolExecutor(max_workers=workers, mp_context=multiprocessing.get_context('spawn'))
+    base_futures = [pool.submit(base_job, j) for j in jobs]
+
+    # ---- meanwhile: corpus first (minimised past failures) ----
+    for fn, c in load_corpus():
+        eff = dict(new_eff(), **c.get('eff', {}))
+        status, detail = check_pair(c['workspace'], c['rewritten'], c['mu_test'], eff, limit=bool(c.get('limit')))
+        evaluations += 1
+        stats['corpus'] += 1
+        label = c.get('label', 'corpus')
+        rp = dict(workspace=c['workspace'], rewritten=c['rewritten'], rewrites=c.get('rewrites', [label]), mu_test=c['mu_test'], eff=c.get('eff', {}), corpus=fn,
+                  expected=dict(relation='equal to the original model up to eff (mu_scale, nll_shift)', original=detail['base']))
+        if status == 'error':
+            fails.append(dict(signature='rewrite-fails:%s:%s' % (label, detail['exc']), what='inference on the rewritten model (%s, corpus %s) fails: %s' % (label, fn, detail['error']),
+                              replay=dict(rp, observed=detail['error'])))
+        elif status == 'violated':
+            fails.append(dict(signature='not-invariant:' + label,
+                              what='inference changes under the likelihood-preserving rewrite %s (corpus %s: %s): %s' % (label, fn, c.get('comment', ''), '; '.join(detail['first'])[:300]),
+                              replay=dict(rp, observed=detail['new'], confirmed_with_tight_fits=detail['confirmed'], theorem='C15_*_invariant (Ref level) lifted through C01/C02')))
+    ctx.log('%d corpus cases' % stats['corpus'])
+
+    # ---- stage 2 in worker processes: every plan of every sensitive model ----
+    bases = {}
+    plan_futures = []
+    for fu in base_futures:
+        r = fu.result()
+        ctx.notes += r['notes']
+        if r['status'] == 'insensitive':
             stats['insensitive_skipped'] += 1
+        if r['status'] != 'ok':
             continue
+        j = jobs[r['k']]
+        bases[r['k']] = r
         stats['models'] += 1
-        # single rewrites and one composition
-        plans = [[r] for r in REWRITES]
-        comp = prng.sample(REWRITES, 3)
-        plans.append(comp)
-        if ctx.quick:
-            plans = prng.sample(plans[:-1], 4) + [plans[-1]]
-        for plan in plans:
-            w2, eff = copy.deepcopy(ws), {}
-            names = []
-            for nm, f in plan:
-                r = f(prng, w2)
-                if r is None:
-                    continue
-                w2, e2 = r
-                names.append(nm)
-                eff['nll_shift'] = eff.get('nll_shift', 0.0) + e2.get('nll_shift', 0.0)
-                eff['mu_scale'] = eff.get('mu_scale', 1.0) * e2.get('mu_scale', 1.0)
-            if not names:
-                continue
-            label = '+'.join(names)
-            stats['rewrites'][label if len(names) == 1 else 'composition'] = stats['rewrites'].get(label if len(names) == 1 else 'composition', 0) + 1
-            stats['compositions'] += len(names) > 1
-            try:
-                new = infer(w2, mu_test * eff.get('mu_scale', 1.0), limit=('limit_obs' in base))
-            except Exception as e:
-                ctx.violation('rewrite-fails:%s:%s' % (label if len(names) == 1 else 'composition', core.exc_enum(e)),
-                              'inference on the rewritten model (%s) fails: %s' % (label, str(e)[:200]),
-                              dict(workspace=ws, rewritten=w2, rewrites=names, mu_test=mu_test))
-                continue
-            evaluations += 1
-            stats['limits'] += 'limit_obs' in new
-            bad = compare(base, new, eff, check_limit=True)
-            if bad:
-                # rule out an optimiser hiccup: repeat both with minuit
-                stats['retries'] += 1
-                try:
-                    b2 = infer(ws, mu_test, optimizer='minuit')
-                    n2 = infer(w2, mu_test * eff.get('mu_scale', 1.0), optimizer='minuit')
-                    bad2 = compare(b2, n2, eff)
-                except Exception as e:
-                    bad2 = ['minuit retry failed: ' + core.exc_enum(e)]
-                if bad2:
-                    ctx.violation('not-invariant:' + (label if len(names) == 1 else 'composition:' + names[0]),
-                                  'inference changes under the likelihood-preserving rewrite %s: %s' % (label, '; '.join(bad)[:300]),
-                                  dict(workspace=ws, rewritten=w2, rewrites=names, mu_test=mu_test, base=base, new=new, minuit=bad2,
-                                       theorem='C15_reorder_invariant / ..._invariant (Ref level) lifted through C01/C02'))
-            sigs.add(label + json.dumps([[len(c['samples']), len(c['samples'][0]['data'])] for c in ws['channels']]) + str(k))
-        # backend / optimiser agreement on the base model
+        key = '%s-%s' % (j['backend'], j['optimizer'])
+        stats['primary_configs'][key] = stats['primary_configs'].get(key, 0) + 1
+        g = stats['generator']
+        g['twin'] += r['info']['twin']
+        g['zero_unc'] += r['info']['zero_unc']
+        g['empty_bin'] += r['info']['empty_bin']
+        g['excess'] += r['base']['muhat'] > 1.5
+        g['deficit'] += r['base']['muhat'] < 0.01
+        g['poi_bounds'][str(r['info']['poi_bounds'])] = g['poi_bounds'].get(str(r['info']['poi_bounds']), 0) + 1
+        stats['slowest_s'] = max(stats['slowest_s'], r['wall'])
+        for pi, plan in enumerate(plans_for(core.random.Random(j['seed'] ^ 0x5bd1e995), ctx.quick)):
+            plan_futures.append(pool.submit(plan_job, dict(j, pi=pi, plan=plan, base=r['base'])))
+    ctx.log('%d sensitive models, %d rewrite plans submitted' % (stats['models'], len(plan_futures)))
+
+    # ---- meanwhile: backend/optimiser agreement on the original models, in this process ----
+    for k in sorted(bases):
+        j = jobs[k]
+        if (j['backend'], j['optimizer']) != ('numpy', 'scipy'):
+            continue
+        ws, mu_test = gen_case(core.random.Random(j['seed']))
+        base = bases[k]['base']
         for be, opt in (extra[(k + ctx.seed) % len(extra):][:1] if ctx.quick else extra):
+            key = '%s-%s' % (be, opt)
             try:
                 other = infer(ws, mu_test, backend=be, optimizer=opt)
             except Exception as e:
                 # a failing optimiser run is C05's business (fits on well-posed models); here it only removes the comparison
-                stats['configs']['%s-%s:failed' % (be, opt)] = stats['configs'].get('%s-%s:failed' % (be, opt), 0) + 1
-                ctx.notes.append('inference under %s/%s failed (%s): comparison skipped' % (be, opt, core.exc_enum(e)))
+                stats['configs'][key + ':failed'] = stats['configs'].get(key + ':failed', 0) + 1
+                ctx.notes.append('inference under %s/%s failed (%s: %s): comparison skipped' % (be, opt, core.exc_enum(e), str(e)[:100]))
                 continue
             evaluations += 1
-            stats['configs']['%s-%s' % (be, opt)] = stats['configs'].get('%s-%s' % (be, opt), 0) + 1
+            stats['configs'][key] = stats['configs'].get(key, 0) + 1
             bad = compare(base, other, {}, tol_cls=5e-4, tol_nll=5e-4)
             if bad:
-                ctx.violation('config-dependence:%s-%s' % (be, opt), 'inference differs between numpy/scipy and %s/%s: %s' % (be, opt, '; '.join(bad)[:300]),
-                              dict(workspace=ws, mu_test=mu_test, base=base, other=other, backend=be, optimizer=opt))
+                # rule out an optimiser hiccup: both sides again with tightly converged fits
+                try:
+                    bad = compare(infer(ws, mu_test, tight=True), infer(ws, mu_test, backend=be, optimizer=opt, tight=True), {}, tol_cls=5e-4, tol_nll=5e-4)
+                except Exception as e:
+                    ctx.notes.append('tight refit under %s/%s failed (%s): comparison skipped' % (be, opt, core.exc_enum(e)))
+                    bad = []
+            if bad:
+                fails.append(dict(signature='config-dependence:' + key, what='inference differs between numpy/scipy and %s/%s: %s' % (be, opt, '; '.join(bad)[:300]),
+                                  replay=dict(workspace=ws, rewritten=ws, mu_test=mu_test, observed=other, expected=dict(relation='equal', original=base), backend=be, optimizer=opt)))
+    ctx.log('backend/optimiser agreement done: %r' % stats['configs'])
+    for fu in plan_futures:
+        r = fu.result()
+        if not r['names']:
+            continue
+        evaluations += 1
+        stats['rewrites'][r['label']] = stats['rewrites'].get(r['label'], 0) + 1
+        for ft in r['features']:
+            stats['features'][ft] = stats['features'].get(ft, 0) + 1
+        stats['limits'] += r['limit']
+        stats['retries'] += r['retry']
+        stats['slowest_s'] = max(stats['slowest_s'], r.get('wall', 0.0))
+        sigs.add(r['sig'])
+        if r['fail']:
+            fails.append(r['fail'])
+    pool.shutdown()
+    ctx.log('%d models, %d rewritten models compared' % (stats['models'], len(sigs)))
     pyhf.set_backend('numpy', 'scipy')
+    report(ctx, fails)
     if tie and not ctx.violations:
         ctx.violation('tie-broken', tie[:300], dict(kind='tie', detail=tie, theorem='props/C15.v'), nofail=True)
     ctx.trusted += ['numerical optimisers (SLSQP/MIGRAD) agree only within fit tolerance: invariance of the NUMERICAL results is validated, '
                     'the theorems are about the likelihood (Ref level)']
     ctx.coverage.update(evaluations=evaluations, distinct_nontrivial=len(sigs), stats=stats,
-                        rule='generated sensitive workspaces (median expected CLs < 0.9) with modifiers of every type; each of the seven rewrites '
-                             'alone and a random composition of three; observables: maximised twice_nll (up to the constant of added constraint '
-                             'terms), fitted POI, qtilde, CLs observed and five expected values, grid upper limits; covariant transformation for the '
-                             'signal rescaling; one more backend/optimiser configuration per model in quick, all in thorough; a mismatch is '
-                             'confirmed with minuit before it is reported',
-                        samples=[dict(rewrites=[n for n, _ in REWRITES], tolerances='CLs 3e-4 abs + 0.2% rel, twice_nll 2e-4 rel')])
+                        rule='generated sensitive workspaces (median expected CLs < 0.9; deficit / no signal / excess in the data; modifiers of every type; '
+                             'backgrounds with identical modifier lists, all-zero MC-stat uncertainties, empty bins keeping an uncertainty; parameters fixed in '
+                             'the measurement; POI ranges other than the default). Each rewrite of the catalogue alone (reorder, order-changing rename, zero '
+                             'sample with or without modifiers, null systematic of each constrained type, channel cut at any set of bin positions, samples '
+                             'merged or split 2-3 ways with different yields/uncertainties, signal rescaling with k also chosen to push the best fit out of the '
+                             'default POI range, fit configuration moved to caller arguments init_pars/par_bounds/fixed_params) and compositions. Observables: '
+                             'maximised twice_nll (up to the constant of added constraint terms), fitted POI, q/qtilde and q0 on observed and Asimov data, CLs, '
+                             'CLs+b, CLb observed, five expected CLs, grid upper limits (observed and expected); covariant transformation under signal rescaling; '
+                             'one more backend/optimiser configuration per model in quick, all in thorough (where the rewrites also run under four '
+                             'backend x optimiser pairs); a mismatch is confirmed with tightly converged scipy and minuit fits before it is reported',
+                        samples=[dict(rewrites=[n for n, _ in REWRITES], tolerances='CLs 3e-4 abs + 0.2% rel, twice_nll 2e-4 rel, test statistics 5e-4, limits 2%')])
 
 
 def replay(body):
-    print(json.dumps(dict(base=infer(body['workspace'], body['mu_test']),
-                          new=infer(body['rewritten'], body['mu_test']) if 'rewritten' in body else None), indent=1))
+    if body.get('kind') == 'tie':
+        print(body.get('detail'))
+        return 0
+    logging.getLogger('pyhf').setLevel(logging.CRITICAL)
+    eff = dict(new_eff(), **body.get('eff', {}))
+    be, opt = body.get('backend', 'numpy'), body.get('optimizer', 'scipy')
+    if 'rewritten' not in body or body.get('signature', '').startswith('config-dependence'):
+        base = infer(body['workspace'], body['mu_test'])
+        new = infer(body['workspace'], body['mu_test'], backend=be, optimizer=opt)
+    else:
+        base = infer(body['workspace'], body['mu_test'], be, opt, limit=True)
+        try:
+            new = infer(body['rewritten'], body['mu_test'] * eff['mu_scale'], be, opt, limit=True, args=eff.get('args'))
+        except Exception as e:
+            print(json.dumps(dict(original=base, rewritten_raises='%s: %s' % (core.exc_enum(e), str(e)[:300])), indent=1))
+            return 0
+    print(json.dumps(dict(original=base, rewritten=new, eff=eff, expected='rewritten = original up to eff (POI values x mu_scale, twice_nll + nll_shift)',
+                          mismatch=compare(base, new, eff, check_limit=True)), indent=1))
     return 0
